@@ -84,12 +84,12 @@ def forbidden_tokens():
     return hits
 
 
-def lean_check(prop, thorough=False):
+def lean_check(prop, thorough=False, extra_modules=()):
     """build Props.<prop> + driver, audit axioms.  Returns dict."""
     res = {"ok": False, "build_ok": False, "theorems": [], "errors": [], "bad_axioms": [], "forbidden": []}
     with Lock("lake"):
         t0 = time.time()
-        rc, out = sh(["lake", "build", f"CstModel.Props.{prop}", "driver"], cwd=LEAN, timeout=3000)
+        rc, out = sh(["lake", "build", f"CstModel.Props.{prop}", "driver"] + list(extra_modules), cwd=LEAN, timeout=3000)
         res["lake_s"] = round(time.time() - t0, 1)
         if rc != 0:
             errs = [l for l in out.split("\n") if "error" in l.lower()]
@@ -102,7 +102,7 @@ def lean_check(prop, thorough=False):
         res["driver_ok"] = True
         rc, out = sh(["lake", "env", "lean", f"CstModel/Audit/{prop}.lean"], cwd=LEAN, timeout=1200)
         if thorough:
-            mods = [f"CstModel.Props.{prop}"]
+            mods = [f"CstModel.Props.{prop}"] + list(extra_modules)
             rcc, outc = sh(["lake", "env", "leanchecker"] + mods, cwd=LEAN, timeout=3000)
             res["leanchecker"] = {"rc": rcc, "out": outc[-400:]}
             if rcc != 0:
